@@ -67,7 +67,7 @@ PROPERTIES = {
         "explanation": "R-ARGS, R-GLOBAL, R-MEMO, R-TOKEN",
     },
     "C19": {
-        "rules": [rule_raise, rule_defassign, rule_regkey, rule_kwsig, rule_assert, rule_cover, CD.rule_codewidth, rule_loopstore, MB.rule_names, MB.rule_attr, MB.rule_dictkeys, rule_uniquefrom, rule_emptyidx, rule_fillnone, rule_aligned, rule_autorefuse, rule_autoparam, rule_axisrange, PR.rule_pairs_broadcast, PR.rule_pairs_broadcast_nax, rule_qrange, M.rule_emptykernel, rule_dtypenorm],
+        "rules": [rule_raise, rule_defassign, rule_regkey, rule_kwsig, rule_assert, rule_cover, CD.rule_codewidth, rule_loopstore, MB.rule_names, MB.rule_attr, MB.rule_dictkeys, MB.rule_seqkind, rule_uniquefrom, rule_emptyidx, rule_fillnone, rule_aligned, rule_autorefuse, rule_autoparam, rule_axisrange, PR.rule_pairs_broadcast, PR.rule_pairs_broadcast_nax, rule_qrange, M.rule_emptykernel, rule_dtypenorm],
         "thorough": [selftest, seeded_regression],
         "technique": "CFG definite-assignment with guard correlation; call-graph reachability of raises; keyword/signature agreement of "
                      "every resolved call and partial; assert triage table",
@@ -160,7 +160,7 @@ PROPERTIES = {
         "explanation": "R-COLLIDE, R-CASTORDER, R-INFRESOLVE, R-VARSHIFT, R-ACCDTYPE (integer block accumulators are as wide as the final dtype)",
     },
     "C03": {
-        "rules": [rule_keys, rule_order, rule_axiskey, rule_global, rule_algebra, rule_contig, rule_pure],
+        "rules": [rule_keys, rule_order, rule_axiskey, rule_global, rule_algebra, rule_contig, rule_pure, rule_passthrough_sort],
         "thorough": [selftest, seeded_regression],
         "technique": "def-use closure of graph keys over enclosing loops; taint (unordered source -> block selection) with sanitizers; "
                      "module-state scan; associativity column of the monoid table",
